@@ -107,8 +107,8 @@ CHECKS = {
             {'engine': 'faultcall', 'config': 'asan', 'variant': 'base', 'runs': [10000, 600000]},
             {'engine': 'faultcall', 'config': 'asan32', 'variant': 'base', 'runs': [5000, 300000]},
             {'engine': 'faultcall', 'config': 'asanfast', 'variant': 'base', 'runs': [4000, 200000]},   # SAFE_FAST: the fast editions
-            {'engine': 'faultcall', 'config': 'asan', 'variant': 'badmem', 'runs': [5000, 300000]},    # the refused inputs (C09's variants), judged for memory safety only
-            {'engine': 'faultcall', 'config': 'asan32', 'variant': 'badmem', 'runs': [2000, 100000]},
+            {'engine': 'faultcall', 'config': 'asan', 'variant': 'badmem', 'runs': [5000, 150000]},    # the refused inputs (C09's variants), judged for memory safety only
+            {'engine': 'faultcall', 'config': 'asan32', 'variant': 'badmem', 'runs': [2000, 40000]},
             {'engine': 'streamsim', 'config': 'asan', 'runs': [100000, 3000000]},
             {'engine': 'streamsim', 'config': 'asan32', 'runs': [50000, 1500000]},
             {'engine': 'mtsim', 'config': 'asan', 'variant': 'exit', 'runs': [20000, 1000000]},
